@@ -115,6 +115,24 @@ def workdir(prop, sub=""):
 def run_vexec(steps, wd, name, profile="verifdbg", stack_mb=8, timeout=300, binary=None, wrapper=None, env=None, keep=False):
     """Writes the scenario, runs it, parses the record log. Never raises on a crashing executor: the
     exit status / signal and the crash journal are returned for the caller's verdict."""
+    tool = os.environ.get("VERIF_TOOL")
+    if tool and binary is None and wrapper is None:
+        # thorough tier: the same scenario under a sanitizer / interpreter; findings go to a report file
+        run, reports = run_under(tool, steps, wd, name + "." + tool, timeout=max(timeout, 1800), stack_mb=stack_mb)
+        rdir = os.path.join(WORK, "tool-reports", tool)
+        os.makedirs(rdir, exist_ok=True)
+        if run is None:
+            with open(os.path.join(rdir, "unavailable.txt"), "a") as f:
+                f.write("%s\n" % reports)
+            run = Run([], None, None, None, 0.0, False, "")
+            run.stderr = ""
+            return run
+        with open(os.path.join(rdir, "runs.txt"), "a") as f:
+            f.write("%s %d\n" % (name, len(run.records)))
+        for i, rp in enumerate(reports):
+            with open(os.path.join(rdir, "%s.%d.report.txt" % (name, i)), "w") as f:
+                f.write(json.dumps({"scenario": run.path, "report": rp}))
+        return run
     exe = binary or build(profile)
     sp = os.path.join(wd, name + ".scn.jsonl")
     op = os.path.join(wd, name + ".out.jsonl")
@@ -477,3 +495,50 @@ def run_under(kind, steps, wd, name, timeout=3600, seed=None, stack_mb=8):
     if kind == "asan" and ("ERROR: AddressSanitizer" in run.stderr):
         reports.append("asan: " + run.stderr[-2500:])
     return run, reports
+
+
+
+def first_repo_frame(text):
+    m = re.search(r"(/repo/src/[A-Za-z_]+\.rs):(\d+)", text)
+    if m:
+        return m.group(1).replace("/repo/", "")
+    m = re.search(r"(src/[A-Za-z_]+\.rs):(\d+)", text)
+    return m.group(1) if m else "?"
+
+
+def run_tool_tier(rep, mod, tool, shards, procs=None):
+    """Re-runs selected shards of a property's workload under a sanitizer tier, judged by the same oracles;
+    every tool report becomes a violation (signature: tool + first in-repo frame)."""
+    rdir = os.path.join(WORK, "tool-reports", tool)
+    shutil.rmtree(rdir, ignore_errors=True)
+    if tool != "valgrind" and build_sanitizer(tool) is None:
+        rep.inconclusive.append("%s tier unavailable (build failed)" % tool)
+        return
+    os.environ["VERIF_TOOL"] = tool
+    t0 = time.time()
+    try:
+        parts = pmap(mod.run_shard, shards, procs)
+    finally:
+        os.environ.pop("VERIF_TOOL", None)
+    ev = 0
+    for part in parts:
+        ev += part.get("evaluations", 0)
+        # counts of the tool tier are kept apart from the native ones
+        part["counts"] = {"%s:%s" % (tool, k): v for k, v in part.get("counts", {}).items()}
+        part["classes"] = ["%s:%s" % (tool, c) for c in part.get("classes", ())][:200]
+        part["samples"] = []
+        rep.merge(part)
+    nrep, nruns = 0, 0
+    if os.path.isdir(rdir):
+        for fn in sorted(os.listdir(rdir)):
+            fp = os.path.join(rdir, fn)
+            if fn.endswith(".report.txt"):
+                d = json.load(open(fp))
+                nrep += 1
+                rep.violation(["sanitizer", tool, first_repo_frame(d["report"])], "%s report while running %s: %s" % (tool, d["scenario"], d["report"][:1500]), {"tool": tool, "scenario": d["scenario"]})
+            elif fn == "runs.txt":
+                nruns = sum(1 for _ in open(fp))
+            elif fn == "unavailable.txt":
+                rep.inconclusive.append("%s: %s" % (tool, open(fp).read()[:200]))
+    sr = rep.extra.setdefault("sanitizer_runs", [])
+    sr.append({"tool": tool, "processes": nruns, "evaluations_judged": ev, "reports": nrep, "wall_s": round(time.time() - t0, 1)})
